@@ -4,7 +4,7 @@ EXTENDS LogStmt
 
 HeadsReal == {"bare", "qualified"}
 HeadsAll == {"bare", "qualified", "unconfigured", "prefix", "suffix", "othermod", "modplus1", "modminus1", "unicodeprefix", "unicodemod", "submod", "shortmod", "upper", "crateprefixed", "noliteral", "noargs",
-             "linecomment", "blockcomment", "doccomment", "instring", "instringopen", "rawstring", "nestedcomment", "nestedcomment3"}
+             "linecomment", "blockcomment", "doccomment", "instring", "instringopen", "rawstring", "nestedcomment", "nestedcomment3", "nolit_outer"}
 TargetsAll == {"none", "plain", "comma", "escquote"}
 TargetsTwo == {"none", "plain"}
 TargetsCompile == TargetsAll \cup ExprTargets
